@@ -675,7 +675,7 @@ WATCHED = {
 
 
 def generate(rng, tier):
-    n = 2000 if tier == "quick" else 25000
+    n = 2000 if tier == "quick" else 20000
     for _ in range(n):
         yield gen_case(rng, tier)
 
